@@ -213,7 +213,12 @@ def view(p, name):
         if name == "len":
             return "N %d" % len(p)
         if name == "dumps":
-            return "D " + wire(p.dumps())
+            d = p.dumps()
+            buf = io.BytesIO()
+            p.dump(buf)                       # the file-writing twin must produce the same bytes
+            if buf.getvalue() != d:
+                return "D <dump(file) wrote %d bytes, dumps() returned %d: they differ>" % (len(buf.getvalue()), len(d))
+            return "D " + wire(d)
     except Exception as e:
         return "ERR " + errname(e)
     raise ValueError(name)
